@@ -32,6 +32,22 @@ class ClientRoles:
     decorators: List[str]
 
 
+def client_program(prog: Program) -> Program:
+    """The program with private same-module helpers inlined into the client classes' methods and the retry functions
+    (undoes "extract helper" refactorings of _send, the batch builders, the retry loops ...)."""
+    from ..inline import inlined_program
+    callers: List[str] = []
+    for ci in prog.classes.values():
+        if ci.module.name == 'pjrpc.client.client':
+            callers += [m.qualname for m in ci.methods.values()]
+    for f in prog.funcs.values():
+        if f.module.name == RETRY_MOD and f.cls is None and f.parent is None and not f.name.startswith('_'):
+            callers.append(f.qualname)
+        if f.module.name == RETRY_MOD and f.cls is not None and f.parent is None:
+            callers.append(f.qualname)
+    return inlined_program(prog, callers, keep_callers=False)
+
+
 def clients(prog: Program) -> List[ClientRoles]:
     base = prog.cls(BASE_CLIENT)
     out = []
@@ -300,64 +316,107 @@ def decor_order_facts(prog: Program, cr: ClientRoles) -> Tuple[Dict[str, Any], L
 # ----------------------------------------------------------------------------------------------
 
 def retried_facts(prog: Program, cr: ClientRoles) -> Tuple[Dict[str, Any], List[Problem]]:
+    """The retried wrapper: the strategy is the per-request one iff that is not UNSET (identity), the client-wide one otherwise;
+    the retry function is applied iff the selected strategy is truthy.  Decided on value flow (reaching definitions + path
+    guards), so conditional expressions and if/else statements are the same thing."""
+    from ..flow import Flow
     f = cr.retried_wrapper
     problems: List[Problem] = []
     facts: Dict[str, Any] = {}
     cfg = CFG(f, prog)
-    sel = None
-    for n in cfg.stmt_nodes():
-        if isinstance(n.ast, ast.Assign) and isinstance(n.ast.value, ast.IfExp):
-            sel = n
-            break
-    if sel is None:
-        # recognised-but-wrong form: `per_request or self._client_wide`
-        pnames = [p.arg for p in f.params]
-        for n in cfg.stmt_nodes():
-            if isinstance(n.ast, ast.Assign) and isinstance(n.ast.value, ast.BoolOp) and isinstance(n.ast.value.op, ast.Or):
-                vals = n.ast.value.values
-                if len(vals) == 2 and dotted(vals[0]) in pnames and (dotted(vals[1]) or '').startswith('self.'):
-                    facts['select'] = f'truthy(per-request) ? per-request : client-wide'
-                    problems.append(('STRATEGY-SELECT', 'per-request strategy selected by truthiness', n.line,
-                                     f'`{norm(n.ast)}`: UNSET is falsy, but so is an explicit per-request strategy of None (= "do not retry this '
-                                     f'request"): it falls back to the client-wide strategy and the request is retried; the per-request strategy '
-                                     f'must replace the client-wide one iff it is not UNSET (identity test)'))
-                    return facts, problems
-        raise AnalysisError(f'{f.qualname}: strategy selection (conditional expression) not found')
-    ife: ast.IfExp = sel.ast.value
-    ckd = classify_cond(prog, f, ife.test)
-    per_req = ckd.subject
-    when_unset, when_set = (ife.body, ife.orelse) if not ckd.negated else (ife.orelse, ife.body)
-    facts['select'] = f'{ckd.kind}({"per-request" if per_req in [p.arg for p in f.params] else per_req}) ? client-wide : per-request'
-    ok = ckd.kind == 'is-unset' and per_req in [p.arg for p in f.params] and dotted(when_set) == per_req and \
-        (dotted(when_unset) or '').startswith('self.')
-    if not ok:
-        problems.append(('STRATEGY-SELECT', 'per-request strategy does not replace the client-wide one', sel.line,
-                         f'`{norm(sel.ast)}`: the per-request strategy must be used iff it is not UNSET (identity), the client-wide one otherwise'))
-    strat_var = list(assigned_names(sel))[0]
-    # `if strategy:` -> retry; else plain
-    retry_call = None
-    for n in cfg.stmt_nodes():
-        for c in calls_in(n):
-            if isinstance(c.func, ast.Attribute) and c.func.attr in ('retry', 'retry_async'):
-                retry_call = (n, c)
-    if retry_call is None:
+    fl = Flow(cfg)
+    pnames = [p.arg for p in f.params]
+
+    def is_retry(e: ast.AST) -> bool:
+        return isinstance(e, ast.Call) and isinstance(e.func, ast.Attribute) and e.func.attr in ('retry', 'retry_async')
+    retry_calls = [(n, c) for n in cfg.stmt_nodes() for c in calls_in(n) if is_retry(c)]
+    if not retry_calls:
         problems.append(('STRATEGY-SELECT', 'retry function never applied', f.node.lineno, 'the retried wrapper never applies a retry function'))
         return facts, problems
-    n, c = retry_call
-    facts['retry_fn'] = 'retry_async' if c.func.attr == 'retry_async' else 'retry'
-    if (c.func.attr == 'retry_async') != cr.is_async:
-        problems.append(('STRATEGY-SELECT', f'{c.func.attr} used by the {"async" if cr.is_async else "sync"} client', n.line,
+    if len(retry_calls) != 1:
+        raise AnalysisError(f'{f.qualname}: expected one application of the retry function, found {len(retry_calls)}')
+    rn, rc = retry_calls[0]
+    facts['retry_fn'] = 'retry_async' if rc.func.attr == 'retry_async' else 'retry'
+    if (rc.func.attr == 'retry_async') != cr.is_async:
+        problems.append(('STRATEGY-SELECT', f'{rc.func.attr} used by the {"async" if cr.is_async else "sync"} client', rn.line,
                          f'the {"asynchronous" if cr.is_async else "synchronous"} client must use '
                          f'{"retry_async" if cr.is_async else "retry"} (blocking sleep / un-awaited coroutine otherwise)'))
-    if len(c.args) < 2 or dotted(c.args[1]) != strat_var:
-        problems.append(('STRATEGY-SELECT', 'retry applied with another strategy', n.line, f'`{norm(c)}` must use the selected strategy `{strat_var}`'))
-    guards = guard_edges(cfg, n)
-    g_ok = any(classify_cond(prog, f, g.src.ast).kind == 'truthy' and classify_cond(prog, f, g.src.ast).subject == strat_var
-               and (g.label == 'T') != classify_cond(prog, f, g.src.ast).negated for g in guards) or \
-        any(classify_cond(prog, f, g.src.ast).kind == 'is-none' and classify_cond(prog, f, g.src.ast).subject == strat_var for g in guards)
+    # --- which strategy ------------------------------------------------------------------------------
+    if len(rc.args) < 2:
+        problems.append(('STRATEGY-SELECT', 'retry applied with another strategy', rn.line, f'`{norm(rc)}` is not given the selected strategy'))
+        return facts, problems
+    salts = fl.alts(rn, rc.args[1], boolops=True)
+    strat_var = dotted(rc.args[1])
+    per_req = [a for a in salts if dotted(a.expr) in pnames]
+    wide = [a for a in salts if (dotted(a.expr) or '').startswith('self.')]
+    other = [a for a in salts if a not in per_req and a not in wide]
+
+    def unset_state(al, subj: str) -> Optional[str]:
+        for c, pol in al.guards:
+            k = classify_cond(prog, f, c)
+            if k.subject != subj:
+                continue
+            if k.kind == 'is-unset':
+                return 'unset' if (not k.negated) == pol else 'set'
+            if k.kind == 'truthy':
+                return 'truthy' if (not k.negated) == pol else 'falsy'
+            if k.kind == 'is-none':
+                return 'none' if (not k.negated) == pol else 'not-none'
+        return None
+    sel_ok = len(per_req) >= 1 and len(wide) >= 1 and not other
+    kind = 'is-unset'
+    if sel_ok:
+        pr = dotted(per_req[0].expr)
+        for al in per_req:
+            st = unset_state(al, pr)
+            if st != 'set':
+                sel_ok = False
+                kind = {'truthy': 'truthy', 'falsy': 'truthy', 'none': 'is-none', 'not-none': 'is-none'}.get(st or '', 'other')
+        for al in wide:
+            st = unset_state(al, pr)
+            if st != 'unset':
+                sel_ok = False
+                kind = {'truthy': 'truthy', 'falsy': 'truthy', 'none': 'is-none', 'not-none': 'is-none'}.get(st or '', kind if kind != 'is-unset' else 'other')
+        facts['select'] = f'{kind}(per-request) ? client-wide : per-request'
+    else:
+        facts['select'] = 'strategies: ' + ', '.join(sorted(a.text()[:50] for a in salts))
+    if not sel_ok:
+        if kind == 'truthy' and per_req and wide:
+            facts['select'] = 'truthy(per-request) ? per-request : client-wide'
+            problems.append(('STRATEGY-SELECT', 'per-request strategy selected by truthiness', rn.line,
+                             f'the strategy is {" | ".join(a.text()[:70] for a in salts)}: UNSET is falsy, but so is an explicit per-request '
+                             f'strategy of None (= "do not retry this request"): it falls back to the client-wide strategy and the request is '
+                             f'retried; the per-request strategy must replace the client-wide one iff it is not UNSET (identity test)'))
+        else:
+            problems.append(('STRATEGY-SELECT', 'per-request strategy does not replace the client-wide one', rn.line,
+                             f'the strategy handed to the retry function is {" | ".join(a.text()[:70] for a in salts)}: the per-request strategy must be '
+                             f'used iff it is not UNSET (identity), the client-wide one otherwise'))
+    # --- applied only when a strategy is configured ---------------------------------------------------
+    def strat_guard(guards) -> bool:
+        for c, pol in guards:
+            k = classify_cond(prog, f, c)
+            if strat_var is not None and k.subject == strat_var:
+                if k.kind == 'truthy' and (not k.negated) == pol:
+                    return True
+                if k.kind == 'is-none' and k.negated == pol:
+                    return True
+        return False
+    g_ok = strat_guard([(g.src.ast, g.label == 'T') for g in guard_edges(cfg, rn)])
+    if not g_ok:
+        # the application may sit in one arm of a conditional expression: look at the callable that is finally invoked
+        for n in cfg.stmt_nodes():
+            for c in calls_in(n):
+                if isinstance(c.func, ast.Name):
+                    for al in fl.alts(n, c.func):
+                        if al.expr is rc and strat_guard(al.guards):
+                            g_ok = True
+            if isinstance(n.ast, (ast.Assign, ast.Return)) and n.ast.value is not None:
+                for al in fl.alts(n, n.ast.value):
+                    if al.expr is rc and strat_guard(al.guards):
+                        g_ok = True
     facts['disabled_when_falsy'] = g_ok
     if not g_ok:
-        problems.append(('STRATEGY-SELECT', 'retrying is not switched off by a None strategy', n.line,
+        problems.append(('STRATEGY-SELECT', 'retrying is not switched off by a None strategy', rn.line,
                          'the retry function must be applied only when a strategy is configured'))
     return facts, problems
 
@@ -601,7 +660,7 @@ def backoff_facts(prog: Program) -> Tuple[Dict[str, Any], List[Problem]]:
         if yields:
             y = [x for frag in node_exprs(yields[0]) for x in walk_no_defs(frag) if isinstance(x, ast.Yield)][0]
             val = y.value
-            shape = _delay_shape(val, g)
+            shape = _delay_shape(val, g, cfg, yields[0], prog)
             rec['shape'] = shape
             has_max = any('max_value' in c.attr_ann or 'max_value' in c.attrs for c in prog.mro(ci) if isinstance(c, ClassInfo))
             want = 'cap(base + jitter)' if has_max else 'base + jitter'
@@ -613,37 +672,66 @@ def backoff_facts(prog: Program) -> Tuple[Dict[str, Any], List[Problem]]:
     return facts, problems
 
 
-def _delay_shape(val: Optional[ast.expr], g: FuncInfo) -> str:
+def _delay_shape(val: Optional[ast.expr], g: FuncInfo, cfg: Optional[CFG] = None, ynode: Optional[Node] = None,
+                 prog: Optional[Program] = None) -> str:
+    """Shape of the yielded delay, decided on value flow: every value the yield can produce is either
+    min(max_value, X) on the paths where `max_value is not None`, or X itself where it is None, X = <base> + jitter()."""
     if val is None:
         return 'nothing'
+    from ..flow import Flow
+    assert cfg is not None and ynode is not None and prog is not None
+    fl = Flow(cfg)
 
-    def resolve(e: ast.expr) -> ast.expr:
-        if isinstance(e, ast.Name):
-            defs = [st.value for st in walk_own(g.node) if isinstance(st, ast.Assign) and len(st.targets) == 1
-                    and isinstance(st.targets[0], ast.Name) and st.targets[0].id == e.id]
-            if len(defs) == 1:
-                return defs[0]
-        return e
-
-    def has_jitter(e: ast.expr) -> bool:
-        e = resolve(e)
+    def jitter_leaf(e: ast.expr) -> bool:
         return isinstance(e, ast.BinOp) and isinstance(e.op, ast.Add) and any(
-            isinstance(s, ast.Call) and dotted(s.func) == 'self.jitter' for s in (e.left, e.right))
-    if isinstance(val, ast.IfExp):
-        ckd_none = isinstance(val.test, ast.Compare) and isinstance(val.test.ops[0], (ast.IsNot, ast.Is)) and \
-            dotted(val.test.left) == 'self.max_value' and isinstance(val.test.comparators[0], ast.Constant) and val.test.comparators[0].value is None
-        capped, plain = (val.body, val.orelse) if isinstance(val.test, ast.Compare) and isinstance(val.test.ops[0], ast.IsNot) else (val.orelse, val.body)
-        if ckd_none and isinstance(capped, ast.Call) and dotted(capped.func) == 'min' and len(capped.args) == 2:
-            args = [a for a in capped.args if dotted(a) != 'self.max_value']
-            if len(args) == 1 and has_jitter(args[0]) and norm(resolve(args[0])) == norm(resolve(plain)):
-                return 'cap(base + jitter)'
-            if len(args) == 1 and not has_jitter(args[0]):
-                return 'cap(base) without jitter inside the cap'
-        if not ckd_none:
+            isinstance(s_, ast.Call) and dotted(s_.func) == 'self.jitter' for s_ in (e.left, e.right))
+
+    def max_state(guards) -> Optional[str]:
+        st = None
+        for c, pol in guards:
+            k = classify_cond(prog, g, c)
+            if k.subject == 'self.max_value':
+                if k.kind == 'is-none':
+                    st = 'set' if k.negated == pol else 'none'
+                else:
+                    return 'non-identity'
+        return st
+    alts = fl.alts(ynode, val)
+    capped = []
+    plain = []
+    for al in alts:
+        e = al.expr
+        if isinstance(e, ast.Call) and dotted(e.func) == 'min':
+            capped.append(al)
+        else:
+            plain.append(al)
+    if not capped:
+        if plain and all(jitter_leaf(al.expr) for al in plain):
+            return 'base + jitter'
+        return 'no jitter'
+    inner_texts = set()
+    for al in capped:
+        e = al.expr
+        st = max_state(al.guards)
+        if st == 'non-identity':
             return 'cap guarded by a non-identity test'
+        if st is None:
+            return 'unconditional cap'
+        if st != 'set' or len(e.args) != 2:
+            return 'unrecognised cap'
+        args = [a_ for a_ in e.args if dotted(a_) != 'self.max_value']
+        if len(args) != 1:
+            return 'unrecognised cap'
+        inner = fl.alts(al.node or ynode, args[0])
+        if not inner or not all(jitter_leaf(x.expr) for x in inner):
+            return 'cap(base) without jitter inside the cap'
+        inner_texts |= {norm(x.expr) for x in inner}
+    for al in plain:
+        st = max_state(al.guards)
+        if st == 'non-identity':
+            return 'cap guarded by a non-identity test'
+        if st != 'none' or not jitter_leaf(al.expr) or norm(al.expr) not in inner_texts:
+            return 'unrecognised cap'
+    if not plain:
         return 'unrecognised cap'
-    if has_jitter(val):
-        return 'base + jitter'
-    if isinstance(val, ast.Call) and dotted(val.func) == 'min':
-        return 'unconditional cap'
-    return 'no jitter'
+    return 'cap(base + jitter)'
